@@ -23,6 +23,11 @@ CHECKS = {
    text="For each scenario (block with parallel script checks and UTXO workers colliding in one bucket; failing script with early return; snapshot save racing with the next block, HurryUp, reorg and Close) every interleaving of the real goroutines with at most 2 (quick, commit scenarios) / 1 (quick, snapshot scenarios) / 3 and 2 (thorough) non-default decisions is run on the real code; no schedule may panic, deadlock, change a verdict, or leave a tip/UTXO set (in memory, seen by the caller right after the call, or reloaded from the files written) different from the reference.",
    note="scheduling points are synchronisation operations (locks, WaitGroup.Wait, atomics, channel ops, select arms, map order): sound for data-race-free code; plain memory races are not visible to this engine; RWMutex writer preference not modelled; bounds reported per scenario",
    design="2.3, 3/C11"),
+ "C07": dict(dir="c07", level="fault_enumeration", engine="crashfs",
+   technique="exhaustive crash-point enumeration: the workload's complete file-effect log is recorded on the real code (os shim injected by overlay); every prefix and every torn final write is materialised and recovered in a fresh process, outcome compared with the reference model",
+   text="Five workloads (extend with snapshots, snapshot then reorg, snapshot-reorg-snapshot, snapshot raced by the next block, side branch during a snapshot) are executed once with all create/write/rename/remove/truncate effects of lib/chain and lib/utxo recorded; for every crash point (1000-2500 per workload incl. torn writes) a fresh process opens the directory with the client's options and catch-up logic (thorough: also the library default), must not die, must show a previously validated tip with UTXO = replay of that tip, must reach the uninterrupted run's final state after the blocks are re-delivered, and must reproduce it after a clean close + reopen.",
+   note="crash = process death (completed system calls persist; no power-loss reordering); the log model is conformance-checked every run (materialised full log == real directory); snapshot goroutines free-running while recording",
+   design="2.4, 3/C07"),
 }
 
 ALL = ["C%02d" % i for i in range(1, 21)]
@@ -58,6 +63,8 @@ def main():
         "engines": [
             {"name": "vsched", "path": "/verif/vshim, /verif/tools/vrewrite, /verif/internal/explore", "serves_properties": [p for p in sorted(CHECKS) if CHECKS[p]["engine"] == "vsched"],
              "kind_free_text": "controlled cooperative scheduler over the real goroutines + deviation-bounded stateless DFS, sharded over worker processes"},
+            {"name": "crashfs", "path": "/verif/internal/vos, /verif/internal/crashfs", "serves_properties": [p for p in sorted(CHECKS) if CHECKS[p]["engine"] == "crashfs"],
+             "kind_free_text": "file-effect recording shim + exhaustive crash-prefix / torn-write materialisation + recovery in fresh processes"},
             {"name": "seqx-state", "path": "/verif/checks", "serves_properties": [p for p in sorted(CHECKS) if CHECKS[p]["engine"] == "seqx-state"],
              "kind_free_text": "explicit-state / bounded-exhaustive history enumeration on the real objects, reference model as oracle"},
         ],
